@@ -366,3 +366,49 @@ def _liquidate(self):
             pass
         hf = self.health_factor
 '''
+
+# ---- derived views (C13): the formulas of the views that are not risk figures (those are C11) ----
+REF_LTV = '''
+def ltv(self):
+    if self.total_supply_value == DECIMAL_0:
+        return Decimal("inf")
+    return self.total_borrows_value / self.total_supply_value
+'''
+
+REF_GET_APY = '''
+def get_apy(amounts, rate_dict):
+    if len(amounts) == 0:
+        return DECIMAL_0
+    weighted = Decimal(sum([amounts[k] * AaveV3CoreLib.rate_to_apy(rate_dict[k]) for k in amounts]))
+    total = Decimal(sum(amounts.values()))
+    return AaveV3CoreLib.safe_div_zero(weighted, total)
+'''
+
+REF_SAFE_DIV = '''
+def safe_div_zero(a, b):
+    if b != 0:
+        return a / b
+    return Decimal(0)
+'''
+
+REF_TOTAL_APY = '''
+def total_apy(self):
+    s = self.total_supply_value
+    b = self.total_borrows_value
+    return AaveV3CoreLib.safe_div_zero(self.supply_apy * s - self.borrow_apy * b, s - b)
+'''
+
+# a new bar: the base class stores the prices / flags, the row of THIS bar is loaded unless supplied, and all five memo
+# caches are emptied
+REF_AAVE_SET_STATUS = '''
+def set_market_status(self, data, price):
+    super().set_market_status(data, price)
+    if data.data is None:
+        data.data = self.data.loc[data.timestamp]
+    self._market_status = data
+    self._supplies_cache.reset()
+    self._borrows_cache.reset()
+    self._supplies_amount_cache.reset()
+    self._borrows_amount_cache.reset()
+    self._collaterals_amount_cache.reset()
+'''
